@@ -2,9 +2,9 @@
 CHT = 'std::__n4861::coroutine_handle<void>'
 DTYPES = {'CH': CHT, 'DQCH': 'std::deque<%s, std::allocator<%s > >' % (CHT, CHT)}
 DQB = [r'^std::deque<std::__n4861::coroutine_handle<void>']
-SCEN = ['start_value', 'start_throw', 'start_promise', 'start_claimed', 'detach', 'never_started', 'join', 'join_throw', 'join_void', 'join_void_throw', 'future_ctor', 'void', 'alloc_value', 'alloc_never_started']
-HEAVY = ['susp_resolved_later', 'susp_dropped', 'nested']   # symbolic execution of these scenarios does not terminate within the budget (DESIGN C04)
-GV = {'GV_%s' % g: g for g in ('g_body_runs', 'g_guard_ctor', 'g_guard_dtor', 'g_seen_value', 'g_seen_exc', 'g_seen_canceled', 'g_acc_allocs', 'g_acc_deallocs', 'g_acc_alloc_sz', 'g_acc_dealloc_sz', 'g_acc_ptr', 'g_acc_dealloc_ptr')}
+SCEN = ['start_value', 'start_throw', 'start_promise', 'start_claimed', 'detach', 'detach_throw', 'never_started', 'join', 'join_throw', 'join_void', 'join_void_throw', 'future_ctor', 'void', 'alloc_value', 'alloc_never_started']
+SUSP = ['susp_resolved_later', 'susp_dropped', 'susp_exception', 'susp_promise', 'susp_detached', 'susp_detached_dropped', 'susp_void', 'susp_twice', 'susp_ready', 'nested_void', 'nested', 'nested_throw', 'nested_catch', 'nested_susp', 'nested_susp_dropped', 'nested3']   # suspending / nested scenarios: see sdrive() below
+GV = {'GV_%s' % g: g for g in ('g_body_runs', 'g_guard_ctor', 'g_guard_dtor', 'g_seen_value', 'g_seen_exc', 'g_seen_canceled', 'g_acc_allocs', 'g_acc_deallocs', 'g_acc_alloc_sz', 'g_acc_dealloc_sz', 'g_acc_ptr', 'g_acc_dealloc_ptr', 'g_outer_runs', 'g_seen_pending')}
 GV['GV_qinst'] = '_ZN5cocls10coro_queue8instanceE'
 def drive(s):
     return dict(name='drive_' + s, driver='c04_async.cpp', roots=['^drive_%s$' % s], names={}, types=DTYPES, globals=GV, boundary=DQB, lib=['rt_core.c', 'rt_atomic_seq.c', 'model_dq_ring.c'],
@@ -43,6 +43,46 @@ CUNITS = [
     cunit('fa_await_suspend', r'^std::__n4861::coroutine_handle<void> cocls::async_promise<int>::final_awaiter::await_suspend<cocls::async_promise<int> >\('),
 ]
 UNITS = CUNITS + [drive(s) for s in SCEN]
+# ---- drives with a coroutine that REALLY SUSPENDS on a pending future and is resumed later, and nested co_await chains (formerly "HEAVY": symbolic
+# execution did not terminate).  Where the time went (measured with cbmc --verbosity 9 / --depth N --show-vcc on drive_dbg2): clang lowers every
+# std::atomic<T*> operation to an i64 instruction between ptrtoint / inttoptr; the awaiter that a suspended coroutine registers in future::_awaiter is
+# a MEMBER of its frame (offset 24), CBMC rewrites (i64)&frame->aw to (i64)&frame + 24 and never folds (awaiter *)((i64)&frame + 24) back into a
+# pointer.  From the first subscribe on, `chain != nullptr` in resume_chain_lk, the CAS in subscribe_check_ready (5 unwindings, "not unwinding 6") and
+# the devirtualised coroutine_handle::resume() were no longer decided during symbolic execution: every resume forked into all lowered .resume
+# functions, co_susp.resume -> final_awaiter -> resume -> co_susp.resume recursed to the unwind bound, each level 4-5 s and growing, each dereference
+# through the integer-derived pointer a byte_extract over the whole frame.  Cure: the std::atomic<T*> MEMBER FUNCTIONS are the boundary and read the
+# cell as the pointer it is (lib/model_atomic_ptr_api.c, as in the C13/C14 drives) - every pointer stays concrete, each scenario is decided in 2-4 s
+# (about 2000 VCCs, all but a few hundred simplified away).  Typed frame objects (lib/model_heap_frames.c) were tried and are NOT needed.
+AP = {'ap_aw_load': r'^std::atomic<cocls::awaiter\*>::load\(std::memory_order\) const$', 'ap_aw_xchg': r'^std::atomic<cocls::awaiter\*>::exchange\(', 'ap_aw_store': r'^std::atomic<cocls::awaiter\*>::store\(',
+      'ap_aw_cas': r'^std::atomic<cocls::awaiter\*>::compare_exchange_weak\(cocls::awaiter\*&, cocls::awaiter\*, std::memory_order, std::memory_order\)$',
+      'ap_fu_load': r'^std::atomic<cocls::future<int>\*>::load\(std::memory_order\) const$', 'ap_fu_xchg': r'^std::atomic<cocls::future<int>\*>::exchange\(', 'ap_fu_store': r'^std::atomic<cocls::future<int>\*>::store\('}
+AP_TYPES = {'ATOM_AW': 'std::atomic<cocls::awaiter *>', 'ATOM_FU': 'std::atomic<cocls::future<int> *>', 'AWT': 'cocls::awaiter', 'FUT': 'cocls::future<int>'}
+SUSP_WHAT = {
+    'susp_resolved_later': 'start(); the coroutine suspends on a pending future, is resumed when the promise is set (same thread), completes with a value',
+    'susp_dropped': 'start(); the coroutine suspends on a pending future whose promise is dropped: ends with await_canceled_exception',
+    'susp_exception': 'start(); the coroutine suspends on a pending future that is resolved with an exception: ends with that exception',
+    'susp_promise': 'start(promise); the coroutine suspends on a pending future and completes later',
+    'susp_detached': 'detach(); the coroutine suspends on a pending future and completes later, nobody bound',
+    'susp_detached_dropped': 'detach(); the coroutine suspends on a pending future whose promise is dropped: ends with an exception, nobody bound',
+    'susp_void': 'async<void>: start(); the coroutine suspends on a pending future<int> and completes later; bound party is a future<void>',
+    'susp_twice': 'start(); the coroutine suspends on a pending future, is resumed, suspends on a second pending future, is resumed and completes (two symbolic values)',
+    'susp_ready': 'start(); the coroutine co_awaits an already resolved future (no suspension)',
+    'nested_void': 'start(); parent co_awaits an async<void> child that completes synchronously (depth 2)',
+    'nested': 'start(); parent co_awaits a child that completes synchronously with a value (depth 2)',
+    'nested_throw': 'start(); parent co_awaits a child that throws, the exception leaves the parent (depth 2)',
+    'nested_catch': 'start(); parent co_awaits a child that throws, the parent catches and returns a value (depth 2)',
+    'nested_susp': 'start(); parent co_awaits a child that suspends on a pending future; promise set later: child resumes, completes, symmetric transfer back into the parent (depth 2, one suspension)',
+    'nested_susp_dropped': 'start(); parent co_awaits a child that suspends on a pending future; promise dropped: cancellation travels child -> parent -> future',
+    'nested3': 'start(); co_await chain of depth 3, synchronous completion with values',
+}
+def sdrive(s):
+    d = drive(s); d['lib'] = ['rt_core.c', 'rt_atomic_seq.c', 'model_atomic_ptr_api.c', 'model_dq_ring.c']
+    d['names_opt'] = dict(AP); d['types'] = dict(DTYPES, **AP_TYPES); d['boundary'] = DQB + list(AP.values()); d['spec'] = ['C04/drive_atomics.h', 'C04/h_drive.c']
+    d['bounded'] = 'scenario %s: %s; scripted coroutines, concrete shape, symbolic value' % (s, SUSP_WHAT[s])
+    d['under_contract'] = ['drive of lowered real code: async<T>::start/start(promise)/detach, async<T>::co_awaiter (operator co_await, await_suspend, await_resume), co_awaiter<future<T>> (await_suspend, subscribe, await_resume), '
+                           'promise<T>::operator()/set_exception/drop -> awaiter::resume_chain_set_ready -> resume of the suspended frame, async_promise, final_awaiter (symmetric transfer into the awaiting coroutine), future, coro_queue']
+    return d
+UNITS += [sdrive(s) for s in SUSP]
 # "its body executes exactly once" for start() / join() / future(async) issued while a coroutine is running on the calling thread: the
 # child must be RUN by start() (nested activation), not merely queued behind the caller (a join() would then wait for itself - seeded
 # change C04-6).  The start() lambda is under contract in C05 (unit start_nested: exactly one direct resume of the child, no push); re-run here.
@@ -62,9 +102,11 @@ def _c05(names):
 UNITS += _c05(['start_nested'])
 META = dict(
     level='proof',
-    level_text='Contract units (proof): async<int>::start_coro, start_promise, start(promise&), detach, ~async, async(async&&), operator co_await, co_awaiter::await_ready/await_suspend, async_promise::resolve, final_awaiter::await_suspend. Clauses from the property: the handle leaves the object exactly once; start(promise) on a claimed promise starts nothing and keeps the coroutine; detach binds nobody; ~async destroys exactly when a handle is still held; co_await wires the awaiting coroutine as the only waiter of the embedded future and binds the child to exactly that future; at final suspend the bound future is resolved strictly before the frame is destroyed, the frame is destroyed exactly once, one released waiter gets the symmetric transfer and the others are released through the discarded suspend point. Bounded drives (never counted as proved) execute really lowered scripted coroutines through the real library for start mode x completion mode (start value/throw, start(promise), start(claimed promise), detach, never started, join, future(async), async<void>): body ran exactly once, value/exception at exactly the bound party, every Guard (argument and local) destroyed exactly once, allocations == frees, normal mode restored.',
-    level_note='Trusted: clang front end incl. its coroutine lowering at -O0, ir2c, heap/exception primitives, ring model of the ready queue in the drives, abstract callees future::resolve / coroutine_handle::destroy / suspend_now in the contract units (their behaviour: C01/C02/C05). Frame layout assumption: the promise sits at offset 16 of the frame (what coroutine_handle<P>::promise() computes). NOT covered: drives with a coroutine that really suspends and is resumed later, and nested co_await chains - symbolic execution of those scenarios does not terminate in the budget (CBMC spends its time in field-sensitive dereferencing; three scenarios are kept in units.py as HEAVY, not run); these paths are covered only compositionally by the contract units plus C02/C05. Completion on another thread and thread-pool start are C02/C11. T = int (and void in one drive).',
-    technique='CBMC code contracts enforced via goto-instrument --dfcc on the C translation of clang IR of async.h; bounded symbolic execution (cbmc --unwind with unwinding assertions) of clang-lowered real coroutines for the start-mode x completion-mode matrix',
-    trusted_base=['abstract callees future<int>::resolve, coroutine_handle<async_promise<int>>::destroy, suspend_point::suspend_now (recording stubs, specs/C04/as_spec.h)', 'bounded FIFO ring model of std::deque<coroutine_handle<>> in the drives (lib/model_dq_ring.c)', 'clang -O0 coroutine lowering (ramp/.resume/.destroy) taken as the semantics of the coroutine bodies'],
-    assumptions=['promise object at frame offset 16', 'drives: concrete shapes, symbolic values, unwind 6', 'suspending / nested scenarios not executed (see level_note)'],
+    level_text='Contract units (proof): async<int>::start_coro, start_promise, start(promise&), detach, ~async, async(async&&), operator co_await, co_awaiter::await_ready/await_suspend, async_promise::resolve, final_awaiter::await_suspend. Clauses from the property: the handle leaves the object exactly once; start(promise) on a claimed promise starts nothing and keeps the coroutine; detach binds nobody; ~async destroys exactly when a handle is still held; co_await wires the awaiting coroutine as the only waiter of the embedded future and binds the child to exactly that future; at final suspend the bound future is resolved strictly before the frame is destroyed, the frame is destroyed exactly once, one released waiter gets the symmetric transfer and the others are released through the discarded suspend point. Bounded drives (never counted as proved) execute really lowered scripted coroutines through the real library for start mode x completion mode: (a) synchronous completion - start value/throw, start(promise), start(claimed promise), detach (value / throw), never started, join (value / throw, int / void), future(async), async<void>, with_allocator; (b) completion AFTER SUSPENSION on a pending future, resumed later on the same thread - start() x {promise set, promise dropped, exception set}, start(promise), detach x {set, dropped}, async<void>, two suspensions in a row, co_await of an already resolved future; (c) co_await from another coroutine - child returns a value / throws (exception leaves the parent / is caught by the parent) / is async<void> / suspends on a pending future and is resumed later (set / dropped: symmetric transfer from the child\'s final suspend back into the parent), chain of depth 3. Oracle of every drive: each body ran exactly once, value / exception / cancellation reached exactly the bound future (which is READY when looked at) and nothing else did, nobody when detached, every Guard (argument and local) destroyed exactly once, allocations == frees (>= number of frames), no exception escapes, normal mode restored, no memory-safety violation (CBMC pointer checks: use after free of a frame, double resume).',
+    level_note='Trusted: clang front end incl. its coroutine lowering at -O0, ir2c, heap/exception primitives, ring model of the ready queue in the drives, sequential member-level model of std::atomic<T*> in the suspending / nested drives (lib/model_atomic_ptr_api.c: load / store / exchange / compare_exchange_weak read and write the cell as a pointer, no spurious CAS failure; same reading as the instruction-level primitives of rt_atomic_seq.c), abstract callees future::resolve / coroutine_handle::destroy / suspend_now in the contract units (their behaviour: C01/C02/C05). Frame layout assumption: the promise sits at offset 16 of the frame (what coroutine_handle<P>::promise() computes). The suspending / nested scenarios were undecidable before (symbolic execution did not terminate): clang lowers atomic<T*> operations to i64 instructions between ptrtoint / inttoptr and CBMC never folds (awaiter *)((i64)&frame + 24) back into a pointer, so from the first subscribe of an awaiter embedded in a coroutine frame no null test, CAS or devirtualised resume() was decided any more; with the member-level model each of them takes 2-4 s. NOT covered: completion on another thread and thread-pool start (C02/C11 contracts), nesting depth > 3 and more than two suspensions per body in a drive (the unbounded statement rests on the contract units), start()/join() issued from inside a running coroutine (C05 unit start_nested, imported), stack depth of long co_await sequences (seeded change C04-4 is functionally invisible in bounded scenarios; it is caught by the contract unit caw_await_suspend). T = int and void.',
+    technique='CBMC code contracts enforced via goto-instrument --dfcc on the C translation of clang IR of async.h; bounded symbolic execution (cbmc --unwind with unwinding assertions) of clang-lowered real coroutines for the start-mode x completion-mode matrix incl. suspension / later resumption and nested co_await',
+    trusted_base=['abstract callees future<int>::resolve, coroutine_handle<async_promise<int>>::destroy, suspend_point::suspend_now (recording stubs, specs/C04/as_spec.h)', 'bounded FIFO ring model of std::deque<coroutine_handle<>> in the drives (lib/model_dq_ring.c)',
+                  'sequential member-level model of std::atomic<cocls::awaiter*> / std::atomic<cocls::future<int>*> in the suspending / nested drives (lib/model_atomic_ptr_api.c via specs/C04/drive_atomics.h; reachability asserted: gh_ap_ops >= 2)',
+                  'clang -O0 coroutine lowering (ramp/.resume/.destroy) taken as the semantics of the coroutine bodies'],
+    assumptions=['promise object at frame offset 16', 'drives: concrete shapes, symbolic values, unwind 6, nesting depth <= 3, at most two suspensions per coroutine body, single thread, no spurious CAS failure'],
     explanation='see level_text')
